@@ -3,18 +3,19 @@
 # Used by /verif/check and by hand during development.
 set -euo pipefail
 D="$1"
+V="$(cd "$(dirname "$0")/.." && pwd)"   # the /verif tree this script belongs to (a vp-run snapshot is self-contained)
 REPO="${VERIF_REPO:-/repo}"
 mkdir -p "$D/m"
 rsync -a --delete --exclude .git "$REPO"/ "$D/m/"
 rm -rf "$D/m/verifh" "$D/m/testdata/rapid"
 mkdir -p "$D/m/verifh"
-cp /verif/harness/verifh/*.go "$D/m/verifh/"
-cp /verif/harness/geom/*.go "$D/m/internal/geom/"
+cp "$V"/harness/verifh/*.go "$D/m/verifh/"
+cp "$V"/harness/geom/*.go "$D/m/internal/geom/"
 # the geometry harness lives in package geom (it needs unexported functions); it shares the infrastructure files
-sed 's/^package verifh$/package geom/' /verif/harness/verifh/infra_test.go > "$D/m/internal/geom/zz_verif_infra_test.go"
-sed 's/^package verifh$/package geom/' /verif/harness/verifh/replay_test.go > "$D/m/internal/geom/zz_verif_replay_test.go"
+sed 's/^package verifh$/package geom/' "$V"/harness/verifh/infra_test.go > "$D/m/internal/geom/zz_verif_infra_test.go"
+sed 's/^package verifh$/package geom/' "$V"/harness/verifh/replay_test.go > "$D/m/internal/geom/zz_verif_replay_test.go"
 cd "$D/m"
 if ! grep -q 'pgregory.net/rapid' go.mod; then
   printf '\nrequire pgregory.net/rapid v1.3.0\n' >> go.mod
 fi
-cat /verif/harness/go.sum.extra >> go.sum
+cat "$V"/harness/go.sum.extra >> go.sum
